@@ -9,6 +9,11 @@
 \* emit_core::emit (12 x 12 cross-side pairs x 3 kinds x 2 carriers).
 \* + value forms (fixed-size arrays / Options of primitives, borrowed byte array), template forms (formatted hole,
 \* literal), 128-bit metric values; the terminal sink as stdout / stderr, colored or not.
+\* + map keys: null, Option, a map as key, a compound key (null, bytes, bool, float, nested sequence / map), borrowed
+\* bytes; metric values that are no points (null, None, bool, text, sequence of texts, nested sequence, map, struct,
+\* unit variant: carried as a log record) and 128-bit typed values that fit 64 bits; range extents by length class
+\* (zero, ns, us, ms, s, min) with the terminal's rendering of the length; module paths of one / two / three segments;
+\* metric samples without a metric_name / without a metric_value.
 SPECIFICATION Spec
 CONSTANTS
     Events <- MC_Events
